@@ -109,10 +109,14 @@ func vFind(s []vEnt, k vEnt) (vEnt, bool) {
 // vReplayEvents applies events in order to a copy of pre, asserting
 // well-formedness (property C02), and returns the result.
 func vReplayEvents(pre []vEnt, events []Event) []vEnt {
+	return vReplayEventsL(pre, events, "C02/wellformed")
+}
+
+func vReplayEventsL(pre []vEnt, events []Event, L string) []vEnt {
 	cur := append([]vEnt{}, pre...)
 	for _, ev := range events {
 		o := ev.Resource()
-		zzverif.Assert(o != nil, "C02/wellformed/nil-object")
+		zzverif.Assert(o != nil, L+"/nil-object")
 		k := vEntOf(o)
 		idx := -1
 		for i, e := range cur {
@@ -123,29 +127,29 @@ func vReplayEvents(pre []vEnt, events []Event) []vEnt {
 		}
 		switch ev.Type() {
 		case EventTypeCreate:
-			zzverif.Assert(idx < 0, "C02/wellformed/create-on-present")
-			zzverif.Assert(zzverif.AtoiOK(o.GetResourceVersion()), "C02/wellformed/unparseable")
+			zzverif.Assert(idx < 0, L+"/create-on-present")
+			zzverif.Assert(zzverif.AtoiOK(o.GetResourceVersion()), L+"/unparseable")
 			if idx < 0 {
 				cur = append(cur, k)
 			} else {
 				cur[idx] = k
 			}
 		case EventTypeUpdate:
-			zzverif.Assert(idx >= 0, "C02/wellformed/update-on-absent")
-			zzverif.Assert(zzverif.AtoiOK(o.GetResourceVersion()), "C02/wellformed/unparseable")
+			zzverif.Assert(idx >= 0, L+"/update-on-absent")
+			zzverif.Assert(zzverif.AtoiOK(o.GetResourceVersion()), L+"/unparseable")
 			if idx >= 0 {
-				zzverif.Assert(k.ver > cur[idx].ver, "C02/wellformed/update-not-newer")
+				zzverif.Assert(k.ver > cur[idx].ver, L+"/update-not-newer")
 				cur[idx] = k
 			} else {
 				cur = append(cur, k)
 			}
 		case EventTypeDelete:
-			zzverif.Assert(idx >= 0, "C02/wellformed/delete-on-absent")
+			zzverif.Assert(idx >= 0, L+"/delete-on-absent")
 			if idx >= 0 {
 				cur = append(cur[:idx:idx], cur[idx+1:]...)
 			}
 		default:
-			zzverif.Assert(false, "C02/wellformed/unknown-type")
+			zzverif.Assert(false, L+"/unknown-type")
 		}
 	}
 	return cur
